@@ -14,12 +14,12 @@ ops (written by `harness/cmd/c12/mw`):
   `snapshot`                            `h<k>`
   `reads live|s<k>`                     spec-level dump      `geom live|s<k>`   model-level dump
   `tworld` / `taddtag <id> <k=v>` / `tsnapshot` / `treads t|ts<k>`   MutableTagsOverlayWorld
-  `<feature>` = `<id> pt:<lat>:<lng>|path:<ids>|area:<ids> [k=kind:str …]`
+  `<feature>` = `<id> pt:<lat>:<lng>|path:<ids>|area:<ids>|rel:<ids>|col:<ids> [k=kind:str …]`
 
 Verdicts.  `reads` of the live world: implementation ≠ per-feature map spec → `propfail reads-differ-from-map`;
 after a rejected AddFeature / failed MergedChange any difference to the dump before the call →
-`propfail rejected-changed-world`; `partial` → `propfail merged-partially-applied`; a merged change for which
-the hypothesis `canaryRefsAgree` of `merged_atomic_of_refs` is false → `propfail hypothesis canary-refs-agree …`; a snapshot's dump that
+`propfail rejected-changed-world`; `partial` → `propfail merged-partially-applied`; the hypothesis `canaryRefsAgree` of
+`merged_atomic_of_refs` is evaluated on every merged change and reported with that propfail (a false hypothesis alone is no failure); a snapshot's dump that
 differs from the first dump taken of it (or from the spec map frozen with it) → `propfail snapshot-changed`.
 Anything else that differs from the Lean model's answer → `diff`.
 -/
@@ -27,7 +27,7 @@ open B6.Driver B6.Model.Mutable
 namespace B6.Driver.Mutable
 
 /-! ### the universe (must agree with harness/cmd/c12/mw) -/
-def allIds : List Id := [1, 2, 3, 4, 7, 8, 9, 1005, 1009, 1011, 2006, 2010]
+def allIds : List Id := [1, 2, 3, 4, 7, 8, 9, 1005, 1009, 1011, 2006, 2010, 3012, 3013, 5014]
 def tokenNames : List Token :=
   ["amenity=cafe", "amenity=pub", "amenity=5", "amenity=7", "highway=cafe", "highway=pub", "highway=5",
    "highway=7", "lit"]
@@ -79,6 +79,8 @@ def parseGeom (s : String) : Option Geom :=
     some (.point (a, b))
   | ["path", ids] => (parseIds ids).map .path
   | ["area", ids] => (parseIds ids).map .area
+  | ["rel", ids] => (parseIds ids).map .relation
+  | ["col", ids] => (parseIds ids).map .collection
   | _ => none
 
 /-- `<id> <geom> [tags]` -/
@@ -118,6 +120,8 @@ def geomText (fv : FV) : String :=
        | some pts => ";".intercalate (pts.map ptText)
        | none => "panic")
   | .area ps => "area:" ++ idsText ps
+  | .relation ms => "rel:" ++ idsText ms
+  | .collection ks => "col:" ++ idsText ks
 
 /-- the spec-level dump computed from a view -/
 def readsOfView (v : View) : String :=
@@ -300,8 +304,11 @@ def step (st : St) (op impl : String) : St × Verdict :=
         | [] => true)
       | none => true
     let (st, v) := mutate st (.merged cs) impl (fun w => B6.Spec.World.applyOp w (.merged cs))
+    -- a false hypothesis alone is not a failure of the property (the theorem just does not cover the
+    -- case); it is reported when atomicity itself fails, to say whether the theorem covered the case
     let v := match v with
-      | .ok => if hyp then .ok else .propfail "hypothesis canary-refs-agree is false for this merged change"
+      | .propfail c => .propfail (c ++ (if hyp then " (canaryRefsAgree=true: inside merged_atomic_of_refs)"
+                                               else " (canaryRefsAgree=false: outside merged_atomic_of_refs)"))
       | other => other
     ({ st with pending := [] }, v)
   | ["snapshot"] =>
